@@ -76,6 +76,25 @@ Proof.
     split; [|apply in_seq; lia]. rewrite E. apply gen_cell2. exact Hj.
 Qed.
 
+(* ... as whole lists, in element order *)
+Lemma flat_map_ext_in {A B} (f g : A -> list B) l : (forall a, In a l -> f a = g a) -> flat_map f l = flat_map g l.
+Proof.
+  induction l as [|x l IH]; intros H; [reflexivity|]. cbn [flat_map].
+  rewrite (H x (or_introl eq_refl)), IH; [reflexivity|]. intros a Ha. apply H. right. exact Ha.
+Qed.
+
+Theorem gen_conn3d_is_model nr nt nz : gen_conn3d nr nt nz = conn3d nr nt nz.
+Proof.
+  unfold gen_conn3d, conn3d. apply flat_map_ext_in. intros i _. apply flat_map_ext_in. intros j Hj.
+  apply in_seq in Hj. apply map_ext. intros k. apply gen_cell3. lia.
+Qed.
+
+Theorem gen_conn2d_is_model nr nt : gen_conn2d nr nt = conn2d nr nt.
+Proof.
+  unfold gen_conn2d, conn2d. apply flat_map_ext_in. intros i _. apply map_ext_in. intros j Hj.
+  apply in_seq in Hj. apply gen_cell2. lia.
+Qed.
+
 (* every node an element names exists, and the eight corners of a cell are distinct nodes *)
 Theorem cell3_in_range nr nt nz i j k n : (i < nr - 1 -> j < nt -> k < nz - 1 ->
   In n (cell3 nt nz i j k) -> n < nr * nt * nz)%nat.
